@@ -332,6 +332,7 @@ def CANDIDATES(func: str):
         "grouping": lambda s: _dec_grouping(s),
         "inferred": lambda s: stmt_tree(s, Cur(), 2, [], ""),
         "no_return": lambda s: rd(s, Cur(), 4),
+        "several_returns": _dec_two,
     }[func]
     for vec in all_vectors(dec, SEL_LEN):
         yield [vec]
@@ -409,3 +410,59 @@ def conformance_job() -> dict:
                          "bound": f"{r['functions']} function bodies rendered to Python and parsed by the real mypy",
                          "detail": "" if ok else str(r)[:1500]}],
             "validation": {"samples": r["functions"], "mismatches": 0 if ok else 1, "details": []}}
+
+
+# ----------------------------------------------------------------------------------- (5) several return statements
+RET_SHAPES = [("int",), ("str",), ("bool",), ("int", "str"), ("str", "int"), ("int", "int"), ("bool", "str", "int")]
+LIT_OF = {"int": (lambda: shim.int_expr(1), "1"), "str": (lambda: shim.str_expr("s"), '"s"'),
+          "bool": (lambda: shim.name_expr("True", "builtins.True"), "True")}
+
+
+def _dec_two(sel):
+    cur = Cur()
+    a = rd(sel, cur, len(RET_SHAPES))
+    b = rd(sel, cur, len(RET_SHAPES))
+    if a == b:
+        raise OutOfRange
+    c = rd(sel, cur, len(RET_SHAPES) + 1) if THOROUGH else len(RET_SHAPES)
+    return [RET_SHAPES[i] for i in (a, b) + ((c,) if c < len(RET_SHAPES) else ())]
+
+
+def _ret_expr(shape):
+    items = [LIT_OF[k][0]() for k in shape]
+    return items[0] if len(items) == 1 else shim.tuple_expr(items)
+
+
+def several_returns(sel: List[int]) -> bool:
+    """Un-annotated function with two (thorough: three) return statements of different shapes: every literal kind
+    returned at every position is covered by the inferred result at that position.
+
+    pre: len(sel) == SEL_LEN and fixed(sel)
+    post: _
+    """
+    try:
+        shapes = _dec_two(sel)
+    except OutOfRange:
+        return True
+    shim.install()
+    body = [shim.if_stmt([[shim.return_stmt(_ret_expr(s))]]) for s in shapes[:-1]] + [shim.return_stmt(_ret_expr(shapes[-1]))]
+    node = shim.func_def("f", "pkg.m.f", [], annotated=False, body=body)
+    vis = make_visitor(False)
+    got = vis._parse_results(node, "pkg/m/f", [])
+    note("oracle")
+    labels = []
+    with untraced():
+        want = {"int": "Int", "str": "String", "bool": "Boolean"}
+        for shape in shapes:
+            for pos, kind in enumerate(shape):
+                if pos >= len(got):
+                    labels.append("returned-position-has-no-result")
+                    continue
+                d = got[pos].type.to_dict()
+                have = [canon_api(x) for x in d["types"]] if d["kind"] == "UnionType" else [canon_api(d)]
+                if want[kind] not in have:
+                    perm = any(sorted(s) == sorted(shape) and s != shape for s in shapes)
+                    labels.append("returned-value-not-covered:" + ("tuples-that-are-permutations-of-each-other" if perm else "other"))
+        if len({r.id for r in got}) != len(got):
+            labels.append("duplicate-result-ids")
+    return judge(labels)
